@@ -623,7 +623,7 @@ fn handle_run_request(
                 Err(CommandError::Action(EvalAction::Skip)) => {
                     let stack_frame = env.stack.0.last_mut().unwrap();
 
-                    if stack_frame.exprs_to_eval.pop().is_none() {
+                    let Some((_, skipped_expr)) = stack_frame.exprs_to_eval.pop() else {
                         // Nothing is pending, e.g. `:skip` was sent
                         // when no evaluation had stopped.
                         return Response {
@@ -634,6 +634,14 @@ fn handle_run_request(
                             position: None,
                             id,
                         };
+                    };
+
+                    // The enclosing expression still expects a value
+                    // from the expression we skipped.
+                    if skipped_expr.value_is_used {
+                        stack_frame
+                            .evalled_values
+                            .push(crate::values::Value::unit());
                     }
 
                     eval_to_response(env, session)
